@@ -330,9 +330,16 @@ class IOBytesBase64Provider(BytesIOBase64Provider, _Base64JSONSchemaMixin, Morph
     def _make_dumper(self):
         def io_bytes_base64_dumper(data: typing.IO[bytes]):
             if data.seekable():
+                position = data.tell()
                 data.seek(0)
+                try:
+                    content = data.read()
+                finally:
+                    data.seek(position)  # dumping must not move the stream of the dumped object
+            else:
+                content = data.read()
 
-            return b2a_base64(data.read(), newline=False).decode("ascii")
+            return b2a_base64(content, newline=False).decode("ascii")
         return io_bytes_base64_dumper
 
 
